@@ -15,11 +15,11 @@ CHECKS = {
    note="Single fault per run, never during unwinding; N <= 1024; element kinds limited to the compiled set."),
  "C05": dict(engine="E1", cat="fault_enumeration", ref="DESIGN.md 5/C05",
    technique="fault injection enumerated over (operation, iterator position, argument, panicking element): a destructor that panics once, oracle = per-element drop count and observation-after-drop registry; the iterator is used again after the caught panic",
-   text="Complete enumeration for N <= 8 of every dropping operation (incl. clone_from into a non-empty destination) from every iterator position with every argument and every choice of the one element whose destructor panics (24-byte, 96-byte and zero-sized tracked elements), plus 300k sampled cases up to N = 4096. No element may be dropped twice or observed after its drop; leaks are allowed.",
+   text="Complete enumeration for N <= 8 of every dropping operation (incl. clone_from into a non-empty destination and zips in five receiver forms whose closure drops its argument) from every iterator position with every argument and every choice of the one element whose destructor panics (24-byte, 96-byte and zero-sized tracked elements), plus 300k sampled cases up to N = 4096. No element may be dropped twice or observed after its drop; leaks are allowed.",
    note="Single panicking destructor per run; a second panic during unwinding aborts by language rule and is out of scope."),
  "C06": dict(engine="E1", cat="exploration", ref="DESIGN.md 5/C06",
    technique="model-based property testing: exhaustive small-N operation grid + proptest operation sequences against a VecDeque reference model, with shrinking",
-   text="Every iterator operation with every argument from every reachable (front, back) position for N<=8 is enumerated (incl. clone_from in both directions against a second iterator in every position, and T::clone call counts for an element kind without drop glue), plus 400k generated operation sequences up to N=4096 over five element kinds (incl. zero-sized with and without a destructor), in two build profiles, each compared call by call with a VecDeque model and with drop accounting of identity-carrying elements. Held-on-explored, not a proof.",
+   text="Every iterator operation with every argument from every reachable (front, back) position for N<=8 is enumerated (incl. clone_from in both directions against a second iterator in every position, T::clone call counts and per-value clone counters for an element kind without drop glue, clones consumed through 14 provided adaptor methods, format flags in Debug), plus 400k generated operation sequences up to N=4096 over five element kinds (incl. zero-sized with and without a destructor), in two build profiles, each compared call by call with a VecDeque model and with drop accounting of identity-carrying elements. Held-on-explored, not a proof.",
    note="Trusts VecDeque as the queue reference and the harness' drop registry; lengths outside the compiled lattice are not exercised."),
  "C07": dict(engine="E1", cat="exploration", ref="DESIGN.md 5/C07",
    technique="property testing with a scripted source: complete grid over (N, produced count, size_hint behaviour, fusedness, target, by-value/&mut) plus proptest-random cases; oracle computed from the script",
@@ -34,11 +34,11 @@ CHECKS.update({
    note="Facts are those of this rustc on x86_64; the random part is a sample of the type/length space."),
  "C02": dict(engine="E1", cat="exploration", ref="DESIGN.md 5/C02",
    technique="property testing over a complete grid (lattice length x view x source length class x form) with seeded values; oracle = pointer identity, length, write-through and Ok/Err/panic as a function of (L, N)",
-   text="63k cases per build profile (with and without debug assertions): 14 shared/mutable views checked for address, length and order with a write through each mutable view read back through all others; six reinterpretation forms against slices with L<N, L=N, L>N for 36 lengths up to 4096 and 7 element kinds (incl. zero-sized, drop-tracked, 72-byte and 32-byte-aligned); by-value array and all 12 tuple arities; a compile-time half (accept/reject twins: the conversions to and from [T; K] and tuples exist only for K = N) and a Miri replay of 150 directed cases (every view / conversion form).",
+   text="63k cases per build profile (with and without debug assertions): 14 shared/mutable views checked for address, length and order with a write through each mutable view read back through all others; six reinterpretation forms against slices with L<N, L=N, L>N for 36 lengths up to 4096 and 7 element kinds (incl. zero-sized, drop-tracked, 72-byte and 32-byte-aligned); by-value array and all 12 tuple arities; slices of zero-sized elements longer than isize::MAX; a compile-time half (accept/reject twins: the conversions to and from [T; K] and tuples exist only for K = N) and a Miri replay of 150 directed cases (every view / conversion form).",
    note="A wrongly accepted reference is never dereferenced, only its address is inspected."),
  "C08": dict(engine="E1", cat="exploration", ref="DESIGN.md 5/C08",
    technique="property testing with a stateful, non-commutative recording closure over a complete grid of (operation form, length, element kind) with seeded values; oracle = exact call log + slice reference computation",
-   text="86k cases per build profile over 40 operation forms (generate x4, map x4, zip x10, fold x4, Clone x2, clone_from x2, Default x2, map x4 / zip x10 into a zero-sized () output) x 16 lengths (34 for u32, incl. non-multiples of every power-of-two block size) x 6 element kinds selecting every needs_drop / zero-size branch (incl. types without drop glue whose Clone/Default are observable), each compared with the expected call log 0..N-1 and with the same computation on slices.",
+   text="86k cases per build profile over 40 operation forms (generate x4, map x4, zip x10, fold x4, Clone x2, clone_from x2, Default x2, map x4 / zip x10 into a zero-sized () output, map x4 into seven output types of other sizes and alignments) x 16 lengths (34 for u32, incl. non-multiples of every power-of-two block size) x 6 element kinds selecting every needs_drop / zero-size branch (incl. types without drop glue whose Clone/Default are observable), each compared with the expected call log 0..N-1 and with the same computation on slices.",
    note="Only the listed lengths are instantiated."),
  "C09": dict(engine="E1", cat="exploration", ref="DESIGN.md 5/C09",
    technique="differential property testing against Vec over an exhaustive type-level grid of (N,K)/(N,M)/index instances with seeded values, plus pointer-offset oracle for by-reference split",
@@ -54,7 +54,7 @@ CHECKS.update({
    note="Unflatten only over evenly divisible lengths."),
  "C12": dict(engine="E2", cat="exploration", ref="DESIGN.md 5/C12",
    technique="generated programs in accept/reject twins (one length, type name or lifetime apart) compiled against the crate; oracle = predicted verdict vs rustc's type/trait/borrow checker",
-   text="786 programs (quick) from 221 templates: every public operation relating two lengths, Send/Sync/Copy/Clone for array, iterator and Box over ten element types, and widening / escape / aliasing / freeze probes for 41 reference-returning APIs. Reject programs must fail with a length, bound or borrow error; accept twins prove the templates are well formed.",
+   text="818 programs (quick) from ~270 templates (incl. 42 length-generic / inferred-type accept programs that state only the documented bounds, and reject programs comparing with native arrays of other lengths): every public operation relating two lengths, Send/Sync/Copy/Clone for array, iterator and Box over ten element types, and widening / escape / aliasing / freeze probes for 41 reference-returning APIs. Reject programs must fail with a length, bound or borrow error; accept twins prove the templates are well formed.",
    note="Templates are hand-written: a loosened bound no template probes is not found."),
  "C13": dict(engine="E1", cat="exploration", ref="DESIGN.md 5/C13",
    technique="property testing: exhaustive pairs over small alphabets + proptest pairs sharing a prefix; differential oracle = the slices of the same elements, a call-recording Hasher and map lookups through Borrow",
@@ -81,8 +81,8 @@ CHECKS.update({
    text="2.8k const items, each compiled against the crate built in the dev and in the release profile: 21 templates covering every const fn x 14 lengths x slice lengths 0..=3N+2 x 4 element types x shared/mutable with writes through results; each value asserted against a natively computed checksum at compile time and compared with the run-time evaluation; 140 reject items must fail with E0080 in both profiles; arr! element expressions also mention caller items under ~50 plausible names (macro hygiene); offset_from of every chunk part is asserted inside the const evaluator; 2^19/2^20-element const arrays with the long_running_const_eval lint kept visible.",
    note="The const evaluator checks only the instantiations the generated items contain."),
  "C19": dict(engine="E1+E2", cat="exploration", ref="DESIGN.md 5/C19",
-   technique="property testing over every storage shape N in 0..=64 (+8 boundary lengths) x 12 element types with seeded prior contents; oracle = per-element comparison with the zeroized value / T::DEFAULT, at run time and in generated const items",
-   text="11.7k run-time cases per build profile and 558 const items over 93 lengths up to 12000 (element sizes 1, 2, 3, 4, 8, 16, 24 bytes incl. multi-word structs and nested arrays, one-byte types whose zeroized byte is not 0x00, a type whose zeroize keeps an id field and counts its calls; thorough tier: Miri replay on the host and on a 32-bit target): zeroize() leaves every element as zeroizing that element alone leaves it (incl. types whose zeroized value is not all-zero bytes or differs per element), const_default()/DEFAULT have every element equal to T::DEFAULT for types whose default is distinguishable from zero, equal Default::default(), at compile time and run time.",
+   technique="property testing over every storage shape N in 0..=64 (+8 boundary lengths) x 16 element types with seeded prior contents; oracle = per-element comparison with the zeroized value / T::DEFAULT, at run time and in generated const items",
+   text="11.7k run-time cases per build profile and 651 const items (incl. a non-Copy element type) over 93 lengths up to 12000 (element sizes 1, 2, 3, 4, 8, 16, 24 bytes incl. multi-word structs and nested arrays, one-byte types whose zeroized byte is not 0x00, a type whose zeroize keeps an id field and counts its calls; thorough tier: Miri replay on the host and on a 32-bit target): zeroize() leaves every element as zeroizing that element alone leaves it (incl. types whose zeroized value is not all-zero bytes or differs per element), const_default()/DEFAULT have every element equal to T::DEFAULT for types whose default is distinguishable from zero, equal Default::default(), at compile time and run time.",
    note="An odd node using one child twice is indistinguishable by value (harmless by construction)."),
  "C20": dict(engine="E2", cat="exploration", ref="DESIGN.md 5/C20",
    technique="generated macro invocations with logging element expressions; oracle = native array literal, explicit type annotation and evaluation log",
